@@ -100,6 +100,10 @@ def model_check(ctx, dev):
     if ctx.thorough and never:
         ctx.inconclusive("actions never taken in any MC configuration: %s" % sorted(never))
         return False
+    return True
+
+
+def model_check_deviations(ctx, dev):
     r = ctx.tlc("Metrics_MC", cfg_text=cfg("W", name="WNameInj", slots="{s1, s2}", maxreq=2, maxswaps=1, statuses='{"200"}', ga=False, inv="TypeOK",
                                            props="AccountingEnds GaugeSettles"), workers=4, timeout=600, extra=["-nowarning"])
     ctx.log("MC liveness (accounting ends, gauge settles; two-step gauge): %d distinct, %.0fs" % (r.distinct, r.wall))
@@ -253,7 +257,13 @@ def do_concurrent(ctx, dev):
         g = ctx.gotest(".", MAIN, "^TestVerifX05Concurrent$", race=True, timeout=900,
                        env={"VERIF_SEED": ctx.seed * 100 + k, "VERIF_X05_CLIENTS": 16, "VERIF_X05_OPS": ctx.pick(60, 150), "VERIF_X05_PHASES": ctx.pick(4, 6)})
         if "WARNING: DATA RACE" in g.out:
-            ctx.inconclusive("race detector report during the concurrent metrics run:\n" + g.out[g.out.find("WARNING: DATA RACE"):][:3000])
+            rep = g.out[g.out.find("WARNING: DATA RACE"):][:3000]
+            if "github.com/fabiolb/fabio/metrics." in rep:
+                # "concurrent requests lose no increments": an unsynchronised metric object IS this property (C06-type)
+                ctx.violation({"sub": "race", "where": "metrics"}, "data race inside a metrics provider while concurrent requests are accounted:\n" + rep,
+                              replay={"sub": "race", "case": None})
+            else:
+                ctx.inconclusive("race detector report during the concurrent metrics run:\n" + rep)
             return
         if not ctx.need_go_ok(g, "X05 concurrent"):
             return
@@ -291,7 +301,7 @@ def do_concurrent(ctx, dev):
             bad2 = None
             if idx2:
                 e2 = json.loads(lines[idx2[len(idx2) // 2]])
-                e2["vals"]["requests" if "requests" in e2["vals"] else sorted(e2["vals"])[0]] += 40
+                e2["vals"]["requests" if "requests" in e2["vals"] else sorted(e2["vals"])[0]] += 100000
                 j = idx2[len(idx2) // 2]
                 bad2 = lines[:j] + [json.dumps(e2, separators=(",", ":"))] + lines[j + 1:]
             for name, b in (("a lost increment at rest", bad), ("a counter ahead of the started requests", bad2)):
@@ -362,7 +372,7 @@ def run(ctx):
     for ld in leads:
         ctx.log(ld)
     ok = {}
-    jobs = [("mc", lambda: ok.__setitem__("mc", model_check(ctx, dev))), ("replay", lambda: do_replay(ctx, dev)),
+    jobs = [("mc", lambda: model_check(ctx, dev)), ("mc-deviations", lambda: model_check_deviations(ctx, dev)), ("replay", lambda: do_replay(ctx, dev)),
             ("concurrent", lambda: do_concurrent(ctx, dev)), ("names", lambda: do_names(ctx, dev))]
     errs = []
 
